@@ -72,6 +72,10 @@ PRELUDES = {'plain': [], 'sigstate': ['sighandler 10', 'sighandler 13', 'sighand
             'ids_mixed': ['stdin pty', 'setresgid 1 54321 0', 'setresuid 1 54321 0'],
             'fds_above_1023': ['openfds 1100'],
             'session_leader_without_ctty': ['dropctty', 'ptyslave ' + H.hx(b'PTSPATH')],
+            # the caller is walking the user / group databases itself (getpwent, getgrent): descriptors and positions are its own
+            'callers_database_walks_open': ['pwwalk'],
+            # /etc/hosts lists a fully qualified name of this host (the "found" path of the domain data source)
+            'hosts_with_fqdn': ['bindover ' + H.hx(b'127.0.0.1 localhost\n10.1.2.3 ' + os.uname().nodename.encode() + b'.corp.example.org ' + os.uname().nodename.encode() + b'\n') + ' ' + H.hx(b'/etc/hosts')],
             # the caller has blocked SIGPIPE / SIGXFSZ / SIGTTOU / SIGUSR1 and one instance of each is PENDING: it must still be pending, and
             # undelivered, afterwards (the digest holds the pending set; a delivery would kill the process)
             'blocked_signals_pending': ['sigmask 13', 'sigmask 25', 'sigmask 22', 'sigmask 10', 'raise 13', 'raise 25', 'raise 22', 'raise 10'],
@@ -121,7 +125,13 @@ def run(ck):
         jobs = []
         for pn, pl in PRELUDES.items():
             for name, lines in L.items():
-                if pn == 'session_leader_without_ctty':
+                if pn == 'hosts_with_fqdn':
+                    if not name.startswith(('ds:domain', 'ds:hostname', 'out:file')):
+                        continue
+                elif pn == 'callers_database_walks_open':
+                    if not name.startswith(('ds:', 'flt:')):
+                        continue
+                elif pn == 'session_leader_without_ctty':
                     if not name.startswith(('out:file_is_a_foreign_tty', 'out:devtty', 'ds:tty', 'out:file')):
                         continue
                 elif pn == 'env_with_line_feeds':
